@@ -1047,6 +1047,7 @@ func (s *Store) Barrier() error {
 // read index is such an entry (for example directly after a node joined or was
 // removed) would wait for the next write, or time out.
 func (s *Store) signalNonCommandApplied(index uint64) {
+	vhook.Trace(s.raftID, "fsm.signal", "idx", index)
 	s.fsmTarget.Signal(index)
 }
 
